@@ -79,3 +79,20 @@ impl WeakCounterMarker {
         }
     }
 }
+
+#[cfg(feature = "verif-hooks")]
+impl WeakCounterMarker {
+    /// (Verification hook) Returns the raw word.
+    #[inline]
+    pub(crate) fn verif_raw(&self) -> u16 {
+        self.weak_counter.get()
+    }
+
+    /// (Verification hook) Builds a `WeakCounterMarker` from a raw word.
+    #[inline]
+    pub(crate) fn verif_from_raw(word: u16) -> WeakCounterMarker {
+        WeakCounterMarker {
+            weak_counter: Cell::new(word),
+        }
+    }
+}
